@@ -60,6 +60,9 @@ func parseUrlPath(pathStr string, m meta.Definition) ([]*Path, error) {
 				if potential != nil {
 					if meta.OriginalModule(potential).Ident() == module {
 						seg.Meta = potential
+					} else if meta.BelongsToModule(meta.OriginalModule(potential)).Ident() == module {
+						// defined in a submodule of that module
+						seg.Meta = potential
 					}
 				}
 			}
